@@ -395,7 +395,7 @@ fn random_stream(ctx: &mut Ctx, em: &Emitter, n: usize, stream: u64, max_depth: 
     for k in 0..n {
         let d = 2 + rng.below(max_depth as u64 - 1) as usize;
         let e = random_expr(&mut rng, &alphabet, d);
-        if k % 10 == 0 {
+        if k % 5 == 0 {
             em.emit_seq(ctx, &e, &ambient);
         } else {
             em.emit(ctx, &e, &ambient);
@@ -416,7 +416,7 @@ fn random_arith(ctx: &mut Ctx, em: &Emitter, n: usize, stream: u64) {
     for k in 0..n {
         let d = 2 + rng.below(5) as usize;
         let e = random_expr(&mut rng, &alphabet, d);
-        if k % 10 == 0 {
+        if k % 5 == 0 {
             em.emit_seq(ctx, &e, &ambient);
             continue;
         }
@@ -447,11 +447,8 @@ fn deep_stream(ctx: &mut Ctx, em: &Emitter, n: usize, stream: u64) {
                 }
             };
         }
-        if k % 4 == 0 {
-            em.emit_seq(ctx, &e, &ambient);
-        } else {
-            em.emit(ctx, &e, &ambient);
-        }
+        let _ = k;
+        em.emit_seq(ctx, &e, &ambient);
     }
 }
 
@@ -541,11 +538,7 @@ fn arm_at_limit(ctx: &mut Ctx, em: &Emitter) {
         for w in 0..8usize {
             for k in 5..=12usize {
                 let uniform = (0..k).fold(redex(i).unwrap(), |acc, _| wrap(w, acc));
-                if (9..=11).contains(&k) && w % 2 == 0 {
-                    em.emit_alt(ctx, &uniform, &[]);
-                } else {
-                    em.emit(ctx, &uniform, &[]);
-                }
+                em.emit_alt(ctx, &uniform, &[]);
                 let mixed = (0..k).fold(redex(i).unwrap(), |acc, j| wrap(w + j * (1 + w % 3), acc));
                 em.emit(ctx, &mixed, &[]);
             }
